@@ -71,6 +71,8 @@ def bounding_attrs(ctx, entry, ctor_cs):
 
 def run(ctx, rep):
     ix, T = ctx.ix, ctx.typer
+    from .common import check_macro_relink
+    check_macro_relink(ctx, rep, "C09.9", {"jaqalpaq.core.algorithm.expand_subcircuits", "jaqalpaq.core.algorithm.unit_timing", "jaqalpaq.core.algorithm.expand_macros"})
     from .common import check_macro_table_lookup
     check_macro_table_lookup(ctx, rep, "C09.8")
     from .common import check_fast_paths
